@@ -1,45 +1,37 @@
 import OjgVerif.JPText.LemmasFrag
 /-! # C14 lemmas: filter-free expressions round-trip
 
-`roundTripsExpr_clean`: the fragment loop of `readExpr` over `Expr.Append`'s text, for every
-expression built from Root/At (first), children with any key, indexes, wildcards, descents (dot
-form, before a token child, a wildcard or the end), unions and slices — `cleanExpr`;
-`cleanExpr_of_spec`: that is implied by "constructible, no filter fragment, no deviation named by
-Spec.lean". -/
+`roundTripsExpr_clean`: the fragment loop of `readExpr` over `Expr.Append`'s text (as it is since
+bc70af1, 4af356a, c107b3b), for every expression built from Root/At (first), children with ANY key, any
+int64 index, wildcards, descents ANYWHERE and in both text forms, unions of two or more members with any
+member bytes, slices of every shape — `cleanExpr`; `cleanExpr_of_spec`: that is implied by
+"constructible, no filter fragment, no deviation named by Spec.lean" (what remains named: Root/At after
+the first position, a union of fewer than two members). -/
 namespace OjgVerif.JPText
 open OjgVerif
 
-/-- may follow a Descent in dot-form text: a token child or a wildcard -/
-def Frag.dotStart : Frag → Bool
-  | .child k => tokenOk k
-  | .wild h => !h
-  | _ => false
-
 def UMem.goodB : UMem → Bool
-  | .key s => s.all fun c => c != 39 && c != 92
+  | .key _ => true
   | .idx i => inInt64 i
 
-/-- a fragment (other than Root, At, Descent, Filter) of a constructible expression without a named deviation -/
-def Frag.clean (br : Bool) : Frag → Bool
-  | .child k => (!br && tokenOk k) || utf8Ok k
-  | .nth i => inInt64 i && decide (i ≠ minInt)
+/-- a fragment (other than Root, At, Filter) of a constructible expression without a named deviation -/
+def Frag.clean : Frag → Bool
+  | .child _ => true
+  | .nth i => inInt64 i
   | .wild h => !h
+  | .descent => true
   | .union ms => decide (2 ≤ ms.length) && ms.all UMem.goodB
   | .slice ns => ns.all inInt64
   | _ => false
 
 /-- the fragments after an optional leading Root/At -/
-def cleanTail (br : Bool) : List Frag → Bool
+def cleanTail : List Frag → Bool
   | [] => true
-  | .descent :: r =>
-    !br && (match r with
-            | [] => true
-            | g :: _ => g.dotStart) && cleanTail br r
-  | f :: r => f.clean br && cleanTail br r
+  | f :: r => f.clean && cleanTail r
 
-def cleanExpr (br : Bool) : List Frag → Bool
+def cleanExpr : List Frag → Bool
   | [] => true
-  | f :: r => if f.isRootAt then cleanTail br r else cleanTail br (f :: r)
+  | f :: r => if f.isRootAt then cleanTail r else cleanTail (f :: r)
 
 /-- what the parser builds for the printed fragment -/
 def Frag.img (br : Bool) : Frag → Frag
@@ -51,61 +43,62 @@ def imgL (br : Bool) : List Frag → List Frag
   | [] => []
   | f :: r => f.img br :: imgL br r
 
-/-- the text of the fragments from some position on -/
-def restText (br fl : Bool) (x : List Frag) : Bytes :=
-  Frag.printL br fl x ++ (if lastIsDescent x then [46] else [])
+/-- the text the parser still has to read when it has just read a Descent (`lastD`) or not: `printL`
+without the second dot of a dot-form descent, which `afterDot` has consumed with the first -/
+def restText (br fl lastD : Bool) : List Frag → Bytes
+  | [] => []
+  | f :: r => f.print br (fl || (lastD && !br)) ++ Frag.printL br false (f.isDescent && !br) r
 
 theorem UMem.good_of_goodB {m : UMem} (h : m.goodB = true) : m.good := by
   cases m with
-  | key s =>
-    simp only [UMem.goodB, List.all_eq_true, Bool.and_eq_true, bne_iff_ne, ne_eq] at h
-    exact h
+  | key s => trivial
   | idx i => exact h
 
-theorem lastIsDescent_cons2 (f g : Frag) (r : List Frag) : lastIsDescent (f :: g :: r) = lastIsDescent (g :: r) := rfl
+theorem printL_eq (br fl aD : Bool) (x : List Frag) :
+    Frag.printL br fl aD x = (if aD then [46] else []) ++ restText br fl aD x ∨ br = true ∧ aD = true := by
+  cases br with
+  | true => cases aD with
+    | true => exact Or.inr ⟨rfl, rfl⟩
+    | false => left; cases x <;> simp [Frag.printL, restText]
+  | false =>
+    left
+    cases x with
+    | nil => cases aD <;> simp [Frag.printL, restText]
+    | cons f r => cases aD <;> simp [Frag.printL, restText]
 
-theorem restText_cons (br fl : Bool) (f : Frag) (r : List Frag) (hd : f.isDescent = false) :
-    restText br fl (f :: r) = f.print br fl ++ restText br false r := by
-  cases r with
-  | nil => simp [restText, Frag.printL, lastIsDescent, hd]
-  | cons g r => simp [restText, Frag.printL, lastIsDescent_cons2]; rfl
+theorem printL_noDescent (br : Bool) (x : List Frag) : Frag.printL br false false x = restText br false false x := by
+  cases x <;> simp [Frag.printL, restText]
 
-theorem restText_descent (fl : Bool) (r : List Frag) :
-    restText false fl (.descent :: r) = 46 :: (if r = [] then [46] else restText false false r) := by
-  cases r with
-  | nil => simp [restText, Frag.printL, Frag.print, lastIsDescent, Frag.isDescent]
-  | cons g r => simp [restText, Frag.printL, Frag.print, lastIsDescent_cons2]; rfl
+theorem printL_afterDot (x : List Frag) : Frag.printL false false true x = 46 :: restText false false true x := by
+  cases x <;> simp [Frag.printL, restText]
 
-theorem nthPrint_head (i : Int) : ∃ t, nthPrint i = 91 :: t := ⟨_, rfl⟩
+theorem restText_br (fl lastD : Bool) (x : List Frag) : restText true fl lastD x = restText true fl false x := by
+  cases x with
+  | nil => rfl
+  | cons f r => simp only [restText, Bool.not_true, Bool.and_false]
 
 /-- the text after a fragment starts with a dot or a bracket, or is empty -/
-theorem follower_restText (br : Bool) (r : List Frag) (h : cleanTail br r = true) :
-    followerOK (restText br false r) = true := by
+theorem follower_restText (br : Bool) (r : List Frag) (h : cleanTail r = true) :
+    followerOK (restText br false false r) = true := by
   cases r with
-  | nil => simp [restText, Frag.printL, lastIsDescent, followerOK]
+  | nil => rfl
   | cons g r =>
+    simp only [restText, Bool.false_and, Bool.or_false]
     cases g with
-    | descent =>
-      simp only [cleanTail, Bool.and_eq_true, Bool.not_eq_true'] at h
-      have hb : br = false := h.1.1
-      subst hb
-      rw [restText_descent]; rfl
+    | descent => cases br <;> rfl
     | child k =>
-      rw [restText_cons _ _ _ _ rfl]
       simp only [Frag.print, childPrint]
       split
       · rfl
       · simp [followerOK]
-    | nth i => rw [restText_cons _ _ _ _ rfl]; rfl
+    | nth i => rfl
     | wild hh =>
-      rw [restText_cons _ _ _ _ rfl]
       simp only [Frag.print]
       split
       · rfl
       · simp [followerOK]
-    | union ms => rw [restText_cons _ _ _ _ rfl]; rfl
+    | union ms => rfl
     | slice ns =>
-      rw [restText_cons _ _ _ _ rfl]
       simp only [Frag.print]
       match ns with
       | [] => rfl
@@ -116,68 +109,67 @@ theorem follower_restText (br : Bool) (r : List Frag) (h : cleanTail br r = true
     | «at» => simp [cleanTail, Frag.clean] at h
     | filter t => simp [cleanTail, Frag.clean] at h
 
-
 theorem nextFrag_bracket (pf : P (List Item)) (fl lastD : Bool) (t : Bytes) (f : Frag) (T : Bytes)
     (h : afterBracket pf t = some (f, T)) : nextFrag pf fl lastD (91 :: t) = some (some f, T) := by
   simp [nextFrag, h]
 
-/-- one clean fragment is read back -/
-theorem nextFrag_clean (pf : P (List Item)) (br fl : Bool) (f : Frag) (T : Bytes) (hc : f.clean br = true)
-    (hT : followerOK T = true) :
-    nextFrag pf fl false (f.print br fl ++ T) = some (some (f.img br), T) := by
+/-- one clean fragment other than a Descent is read back; `lastD`: a Descent has just been read -/
+theorem nextFrag_clean (pf : P (List Item)) (br fl lastD : Bool) (f : Frag) (T : Bytes) (hc : f.clean = true)
+    (hd : f.isDescent = false) (hT : followerOK T = true) :
+    nextFrag pf fl lastD (f.print br (fl || (lastD && !br)) ++ T) = some (some (f.img br), T) := by
   cases f with
   | child k =>
-    simp only [Frag.clean, Bool.or_eq_true, Bool.and_eq_true, Bool.not_eq_true'] at hc
     simp only [Frag.print, childPrint, Frag.img]
     by_cases hq : (br || !tokenOk k) = true
-    · have hu : utf8Ok k = true := by
-        rcases hc with h | h
-        · simp [h.1, h.2] at hq
-        · exact h
-      simp only [hq, ↓reduceIte]
+    · simp only [hq, ↓reduceIte]
       have e : 91 :: (appendString k 39 ++ [93]) ++ T = 91 :: (appendString k 39 ++ 93 :: T) := by simp
       rw [e]
-      exact nextFrag_bracket pf fl false _ _ _ (afterBracket_child pf k T hu)
+      exact nextFrag_bracket pf fl lastD _ _ _ (afterBracket_child pf k T)
     · simp only [hq, Bool.false_eq_true, ↓reduceIte]
+      have hbr : br = false := by cases hb : br <;> simp [hb] at hq ⊢
       have htok : tokenOk k = true := by
-        cases hb : br <;> cases ht : tokenOk k <;> simp [hb, ht] at hq ⊢
-      cases fl with
-      | true => simpa using nextFrag_child_bare pf true false k T htok hT (Or.inl rfl)
-      | false => simpa using nextFrag_child_dot pf false false k T htok hT
+        cases ht : tokenOk k <;> simp [hbr, ht] at hq ⊢
+      subst hbr
+      by_cases hfl : (fl || (lastD && !false)) = true
+      · simp only [hfl, ↓reduceIte]
+        have : fl = true ∨ lastD = true := by
+          cases fl <;> cases lastD <;> simp at hfl ⊢
+        exact nextFrag_child_bare pf fl lastD k T htok hT this
+      · simp only [hfl, Bool.false_eq_true, ↓reduceIte]
+        simpa using nextFrag_child_dot pf fl lastD k T htok hT
   | nth i =>
-    simp only [Frag.clean, Bool.and_eq_true, decide_eq_true_eq] at hc
-    simp only [Frag.print, Frag.img, nthPrint_eq i hc.1 hc.2]
+    simp only [Frag.clean] at hc
+    simp only [Frag.print, Frag.img, nthPrint_eq i]
     have e : 91 :: (fmtInt i ++ [93]) ++ T = 91 :: (fmtInt i ++ 93 :: T) := by simp
     rw [e]
-    exact nextFrag_bracket pf fl false _ _ _ (afterBracket_nth pf i hc.1 T)
+    exact nextFrag_bracket pf fl lastD _ _ _ (afterBracket_nth pf i hc T)
   | wild hh =>
     simp only [Frag.clean, Bool.not_eq_true'] at hc
     subst hc
     cases br with
     | true =>
       simp only [Frag.print, Frag.img, Bool.or_false, ↓reduceIte]
-      exact nextFrag_bracket pf fl false _ _ _ (afterBracket_wild pf T)
+      exact nextFrag_bracket pf fl lastD _ _ _ (afterBracket_wild pf T)
     | false =>
-      cases fl <;> simp [Frag.print, Frag.img, nextFrag, afterDot]
+      cases fl <;> cases lastD <;> simp [Frag.print, Frag.img, nextFrag, afterDot]
   | union ms =>
     simp only [Frag.clean, Bool.and_eq_true, decide_eq_true_eq, List.all_eq_true] at hc
     obtain ⟨t, h1, h2⟩ := afterBracket_union pf ms hc.1 (fun m hm => UMem.good_of_goodB (hc.2 m hm)) T
     simp only [Frag.print, Frag.img, h1]
-    exact nextFrag_bracket pf fl false _ _ _ h2
+    exact nextFrag_bracket pf fl lastD _ _ _ h2
   | slice ns =>
     simp only [Frag.clean] at hc
     obtain ⟨t, h1, h2⟩ := afterBracket_slice pf ns hc T
     simp only [Frag.print, Frag.img, h1]
-    exact nextFrag_bracket pf fl false _ _ _ h2
+    exact nextFrag_bracket pf fl lastD _ _ _ h2
   | root => simp [Frag.clean] at hc
   | «at» => simp [Frag.clean] at hc
-  | descent => simp [Frag.clean] at hc
+  | descent => simp [Frag.isDescent] at hd
   | filter t => simp [Frag.clean] at hc
 
-theorem Frag.print_ne_nil (br fl : Bool) (f : Frag) (hc : f.clean br = true) : 1 ≤ (f.print br fl).length := by
+theorem Frag.print_ne_nil (br fl : Bool) (f : Frag) (hc : f.clean = true) : 1 ≤ (f.print br fl).length := by
   cases f with
   | child k =>
-    simp only [Frag.clean, Bool.or_eq_true, Bool.and_eq_true, Bool.not_eq_true'] at hc
     simp only [Frag.print, childPrint]
     split
     · simp
@@ -198,109 +190,10 @@ theorem Frag.print_ne_nil (br fl : Bool) (f : Frag) (hc : f.clean br = true) : 1
     | [_] => simp [slicePrint]
     | [_, _] => simp [slicePrint]
     | _ :: _ :: _ :: _ => simp [slicePrint]
+  | descent => simp only [Frag.print]; split <;> simp
   | root => simp [Frag.clean] at hc
   | «at» => simp [Frag.clean] at hc
-  | descent => simp [Frag.clean] at hc
   | filter t => simp [Frag.clean] at hc
-
-theorem img_isDescent (br : Bool) (f : Frag) (hc : f.clean br = true) : (f.img br).isDescent = false := by
-  cases f <;> simp [Frag.clean] at hc <;> rfl
-
-/-- the fragment loop of `readExpr` over the text of clean fragments -/
-theorem readExprLoop_clean (pf : P (List Item)) (br : Bool) : ∀ (len : Nat) (x : List Frag), x.length = len →
-    ∀ (fl : Bool) (n : Nat), cleanTail br x = true → (restText br fl x).length < n →
-    readExprLoop pf n fl false (restText br fl x) = some (imgL br x, []) := by
-  intro len
-  induction len using Nat.strongRecOn with
-  | _ len ih =>
-    intro x hlen fl n hcl hn
-    cases x with
-    | nil =>
-      cases n with
-      | zero => simp at hn
-      | succ n => simp [restText, Frag.printL, lastIsDescent, readExprLoop, nextFrag, imgL]
-    | cons f r =>
-      cases n with
-      | zero => simp at hn
-      | succ n =>
-      by_cases hd : f.isDescent = true
-      · -- a descent takes the dot of what follows
-        cases f <;> simp [Frag.isDescent] at hd
-        simp only [cleanTail, Bool.and_eq_true, Bool.not_eq_true'] at hcl
-        have hb : br = false := hcl.1.1
-        subst hb
-        rw [restText_descent] at hn ⊢
-        cases r with
-        | nil =>
-          simp only [↓reduceIte] at hn ⊢
-          cases n with
-          | zero => simp at hn
-          | succ n =>
-            simp [readExprLoop, nextFrag, afterDot, consFst, imgL, Frag.img]
-        | cons g r' =>
-          have hg : g.dotStart = true := hcl.1.2
-          have hcl2 : cleanTail false (g :: r') = true := hcl.2
-          simp only [reduceCtorEq, ↓reduceIte] at hn ⊢
-          cases g with
-          | child k =>
-            have htok : tokenOk k = true := hg
-            have hcl3 : cleanTail false r' = true := by
-              simp only [cleanTail, Bool.and_eq_true] at hcl2; exact hcl2.2
-            have hT := follower_restText false r' hcl3
-            rw [restText_cons _ _ _ _ rfl] at hn ⊢
-            have hp : Frag.print false false (.child k) = 46 :: k := by
-              simp [Frag.print, childPrint, htok]
-            rw [hp] at hn ⊢
-            cases n with
-            | zero => simp at hn
-            | succ n =>
-              have h1 : nextFrag pf fl false (46 :: (46 :: k ++ restText false false r')) =
-                  some (some .descent, k ++ restText false false r') := by
-                simp [nextFrag, afterDot]
-              have h2 := nextFrag_child_bare pf false true k _ htok hT (Or.inr rfl)
-              have h3 := ih r'.length (by simp at hlen; omega) r' rfl false n hcl3
-                (by simp only [List.length_cons, List.length_append] at hn; omega)
-              simp only [readExprLoop, h1, Frag.isDescent, h2, h3, consFst, imgL, Frag.img]
-          | wild hh =>
-            have hh' : hh = false := by simpa [Frag.dotStart] using hg
-            subst hh'
-            have hcl3 : cleanTail false r' = true := by
-              simp only [cleanTail, Bool.and_eq_true] at hcl2; exact hcl2.2
-            rw [restText_cons _ _ _ _ rfl] at hn ⊢
-            have hp : Frag.print false false (.wild false) = [46, 42] := by simp [Frag.print]
-            rw [hp] at hn ⊢
-            cases n with
-            | zero => simp at hn
-            | succ n =>
-              have h1 : nextFrag pf fl false (46 :: ([46, 42] ++ restText false false r')) =
-                  some (some .descent, 42 :: restText false false r') := by
-                simp [nextFrag, afterDot]
-              have h2 : nextFrag pf false true (42 :: restText false false r') =
-                  some (some (.wild false), restText false false r') := by
-                simp [nextFrag]
-              have h3 := ih r'.length (by simp at hlen; omega) r' rfl false n hcl3
-                (by simp only [List.length_cons, List.length_append] at hn; omega)
-              simp only [readExprLoop, h1, Frag.isDescent, h2, h3, consFst, imgL, Frag.img]
-          | root => simp [Frag.dotStart] at hg
-          | «at» => simp [Frag.dotStart] at hg
-          | nth i => simp [Frag.dotStart] at hg
-          | descent => simp [Frag.dotStart] at hg
-          | union ms => simp [Frag.dotStart] at hg
-          | slice ns => simp [Frag.dotStart] at hg
-          | filter t => simp [Frag.dotStart] at hg
-      · have hd' : f.isDescent = false := by simpa using hd
-        have hcf : f.clean br = true ∧ cleanTail br r = true := by
-          cases f <;> simp_all [cleanTail, Frag.isDescent]
-        have hT := follower_restText br r hcf.2
-        rw [restText_cons _ _ _ _ hd'] at hn ⊢
-        have h1 := nextFrag_clean pf br fl f _ hcf.1 hT
-        have hl := Frag.print_ne_nil br fl f hcf.1
-        have h3 := ih r.length (by simp at hlen; omega) r rfl false n hcf.2
-          (by simp only [List.length_append] at hn; omega)
-        simp only [readExprLoop, h1, img_isDescent br f hcf.1, h3, consFst, imgL]
-
-
-theorem restText_eq_exprPrint (br : Bool) (x : List Frag) : restText br true x = exprPrint br x := rfl
 
 theorem img_isDescent_eq (br : Bool) (f : Frag) : (f.img br).isDescent = f.isDescent := by
   cases f <;> rfl
@@ -310,44 +203,101 @@ theorem readExprLoop_step (pf : P (List Item)) (n : Nat) (fl lastD : Bool) (bs :
     readExprLoop pf (n + 1) fl lastD bs = consFst f (readExprLoop pf n false f.isDescent rest) := by
   simp [readExprLoop, h]
 
+/-- the fragment loop of `readExpr` over the text of clean fragments -/
+theorem readExprLoop_clean (pf : P (List Item)) (br : Bool) : ∀ (x : List Frag) (fl lastD : Bool) (n : Nat),
+    cleanTail x = true → (restText br fl lastD x).length < n →
+    readExprLoop pf n fl lastD (restText br fl lastD x) = some (imgL br x, []) := by
+  intro x
+  induction x with
+  | nil =>
+    intro fl lastD n _ hn
+    cases n with
+    | zero => simp at hn
+    | succ n => simp [restText, readExprLoop, nextFrag, imgL]
+  | cons f r ih =>
+    intro fl lastD n hcl hn
+    simp only [cleanTail, Bool.and_eq_true] at hcl
+    cases n with
+    | zero => simp at hn
+    | succ n =>
+    by_cases hd : f.isDescent = true
+    · cases f <;> simp [Frag.isDescent] at hd
+      cases br with
+      | false =>
+        -- `..`: both dots are read with the descent
+        have e : restText false fl lastD (.descent :: r) = 46 :: 46 :: restText false false true r := by
+          simp [restText, Frag.print, Frag.isDescent, printL_afterDot]
+        rw [e] at hn ⊢
+        have h1 : nextFrag pf fl lastD (46 :: 46 :: restText false false true r) =
+            some (some .descent, restText false false true r) := by
+          simp [nextFrag, afterDot]
+        rw [readExprLoop_step pf n fl lastD _ _ _ h1]
+        have h3 := ih false true n hcl.2 (by simp only [List.length_cons] at hn; omega)
+        simp only [Frag.isDescent]
+        rw [h3]; rfl
+      | true =>
+        have e : restText true fl lastD (.descent :: r) = 91 :: (46 :: 46 :: 93 :: restText true false true r) := by
+          rw [restText_br false true r, ← printL_noDescent]
+          rfl
+        rw [e] at hn ⊢
+        have h1 := nextFrag_bracket pf fl lastD _ _ _ (afterBracket_descent pf (restText true false true r))
+        rw [readExprLoop_step pf n fl lastD _ _ _ h1]
+        have h3 := ih false true n hcl.2 (by simp only [List.length_cons] at hn; omega)
+        simp only [Frag.isDescent]
+        rw [h3]; rfl
+    · have hd' : f.isDescent = false := by simpa using hd
+      have hT := follower_restText br r hcl.2
+      have e : restText br fl lastD (f :: r) = f.print br (fl || (lastD && !br)) ++ restText br false false r := by
+        simp [restText, hd', printL_noDescent]
+      rw [e] at hn ⊢
+      have h1 := nextFrag_clean pf br fl lastD f _ hcl.1 hd' hT
+      have hl := Frag.print_ne_nil br (fl || (lastD && !br)) f hcl.1
+      rw [readExprLoop_step pf n fl lastD _ _ _ h1, img_isDescent_eq, hd']
+      have h3 := ih false false n hcl.2 (by simp only [List.length_append] at hn; omega)
+      rw [h3]; rfl
+
+theorem exprPrint_eq_restText (br : Bool) (x : List Frag) : exprPrint br x = restText br true false x := by
+  cases x <;> simp [exprPrint, Frag.printL, restText]
+
 /-- **Filter-free expressions are read back.** -/
-theorem parseExpr_print (br : Bool) (x : List Frag) (h : cleanExpr br x = true) :
+theorem parseExpr_print (br : Bool) (x : List Frag) (h : cleanExpr x = true) :
     parseExpr (exprPrint br x) = some (imgL br x) := by
   have key : ∀ pf : P (List Item), readExpr pf (exprPrint br x) = some (imgL br x, []) := by
     intro pf
     unfold readExpr
+    rw [exprPrint_eq_restText]
     cases x with
-    | nil => simp [exprPrint, Frag.printL, lastIsDescent, readExprLoop, nextFrag, imgL]
+    | nil => simp [restText, readExprLoop, nextFrag, imgL]
     | cons f r =>
       simp only [cleanExpr] at h
       by_cases hra : f.isRootAt = true
       · simp only [hra, ↓reduceIte] at h
         have hd : f.isDescent = false := by cases f <;> simp [Frag.isRootAt] at hra <;> rfl
-        rw [← restText_eq_exprPrint, restText_cons _ _ _ _ hd]
-        have h3 := readExprLoop_clean pf br r.length r rfl false ((restText br false r).length + 1) h (by omega)
-        have hn : nextFrag pf true false (f.print br true ++ restText br false r) =
-            some (some (f.img br), restText br false r) := by
+        have e : restText br true false (f :: r) = f.print br true ++ restText br false false r := by
+          simp [restText, hd, printL_noDescent]
+        rw [e]
+        have h3 := readExprLoop_clean pf br r false false ((restText br false false r).length + 1) h (by omega)
+        have hn : nextFrag pf true false (f.print br true ++ restText br false false r) =
+            some (some (f.img br), restText br false false r) := by
           cases f <;> simp [Frag.isRootAt] at hra <;> simp [Frag.print, nextFrag, Frag.img]
-        have hl : (f.print br true ++ restText br false r).length + 1 = ((restText br false r).length + 1) + 1 := by
+        have hl : (f.print br true ++ restText br false false r).length + 1 =
+            ((restText br false false r).length + 1) + 1 := by
           cases f <;> simp [Frag.isRootAt] at hra <;> simp [Frag.print]
-        have hid : (f.img br).isDescent = false := by rw [img_isDescent_eq]; exact hd
-        rw [hl, readExprLoop_step pf _ true false _ _ _ hn, hid, h3]
+        rw [hl, readExprLoop_step pf _ true false _ _ _ hn, img_isDescent_eq, hd, h3]
         rfl
       · simp only [hra, Bool.false_eq_true, ↓reduceIte] at h
-        rw [← restText_eq_exprPrint]
-        exact readExprLoop_clean pf br (f :: r).length (f :: r) rfl true _ h (by omega)
+        exact readExprLoop_clean pf br (f :: r) true false _ h (by omega)
   simp only [parseExpr, key]
 
-theorem img_print (br fl : Bool) (f : Frag) (hc : f.clean br = true ∨ f.isRootAt = true ∨ f.isDescent = true) :
+theorem img_print (br fl : Bool) (f : Frag) (hc : f.clean = true ∨ f.isRootAt = true) :
     (f.img br).print br fl = f.print br fl := by
   cases f with
   | wild hh =>
-    rcases hc with h | h | h
+    rcases hc with h | h
     · simp only [Frag.clean, Bool.not_eq_true'] at h
       subst h
       cases br <;> simp [Frag.img, Frag.print]
     · simp [Frag.isRootAt] at h
-    · simp [Frag.isDescent] at h
   | slice ns =>
     simp only [Frag.img, Frag.print]
     match ns with
@@ -386,65 +336,36 @@ theorem imgL_normL (br : Bool) (x : List Frag) : Frag.normL (imgL br x) = Frag.n
   | nil => rfl
   | cons f r ih => simp [imgL, Frag.normL, img_norm, ih]
 
-theorem imgL_lastIsDescent (br : Bool) (x : List Frag) : lastIsDescent (imgL br x) = lastIsDescent x := by
-  induction x with
-  | nil => rfl
-  | cons f r ih =>
-    cases r with
-    | nil => simp [imgL, lastIsDescent, img_isDescent_eq]
-    | cons g r' =>
-      have : imgL br (f :: g :: r') = f.img br :: g.img br :: imgL br r' := rfl
-      rw [this, lastIsDescent_cons2, lastIsDescent_cons2]
-      exact ih
-
-theorem cleanTail_frag (br : Bool) (f : Frag) (r : List Frag) (h : cleanTail br (f :: r) = true) :
-    (f.clean br = true ∨ f.isRootAt = true ∨ f.isDescent = true) ∧ cleanTail br r = true := by
-  cases f with
-  | descent =>
-    simp only [cleanTail, Bool.and_eq_true] at h
-    exact ⟨Or.inr (Or.inr rfl), h.2⟩
-  | root => simp [cleanTail, Frag.clean] at h
-  | «at» => simp [cleanTail, Frag.clean] at h
-  | filter t => simp [cleanTail, Frag.clean] at h
-  | child k => simp only [cleanTail, Bool.and_eq_true] at h; exact ⟨Or.inl h.1, h.2⟩
-  | nth i => simp only [cleanTail, Bool.and_eq_true] at h; exact ⟨Or.inl h.1, h.2⟩
-  | wild hh => simp only [cleanTail, Bool.and_eq_true] at h; exact ⟨Or.inl h.1, h.2⟩
-  | union ms => simp only [cleanTail, Bool.and_eq_true] at h; exact ⟨Or.inl h.1, h.2⟩
-  | slice ns => simp only [cleanTail, Bool.and_eq_true] at h; exact ⟨Or.inl h.1, h.2⟩
-
-theorem imgL_printL (br : Bool) : ∀ (x : List Frag) (fl : Bool), cleanTail br x = true →
-    Frag.printL br fl (imgL br x) = Frag.printL br fl x := by
+theorem imgL_printL (br : Bool) : ∀ (x : List Frag) (fl aD : Bool), cleanTail x = true →
+    Frag.printL br fl aD (imgL br x) = Frag.printL br fl aD x := by
   intro x
   induction x with
-  | nil => intro _ _; rfl
+  | nil => intro _ _ _; rfl
   | cons f r ih =>
-    intro fl h
-    obtain ⟨h1, h2⟩ := cleanTail_frag br f r h
-    simp [imgL, Frag.printL, img_print br fl f h1, ih false h2]
+    intro fl aD h
+    simp only [cleanTail, Bool.and_eq_true] at h
+    simp [imgL, Frag.printL, img_print br _ f (Or.inl h.1), img_isDescent_eq, ih _ _ h.2]
 
-theorem exprPrint_imgL (br : Bool) (x : List Frag) (h : cleanExpr br x = true) :
+theorem exprPrint_imgL (br : Bool) (x : List Frag) (h : cleanExpr x = true) :
     exprPrint br (imgL br x) = exprPrint br x := by
   unfold exprPrint
-  rw [imgL_lastIsDescent]
   cases x with
   | nil => rfl
   | cons f r =>
     simp only [cleanExpr] at h
     by_cases hra : f.isRootAt = true
     · simp only [hra, ↓reduceIte] at h
-      simp [imgL, Frag.printL, img_print br true f (Or.inr (Or.inl hra)), imgL_printL br r false h]
+      simp [imgL, Frag.printL, img_print br true f (Or.inr hra), img_isDescent_eq, imgL_printL br r _ _ h]
     · simp only [hra, Bool.false_eq_true, ↓reduceIte] at h
-      rw [imgL_printL br (f :: r) true h]
+      exact imgL_printL br (f :: r) true false h
 
-/-- **C14 for filter-free expressions, partial form.** A constructible expression without filter
-fragments and without a named deviation round-trips in the text form `br`: the printed text is
-accepted, the re-parsed expression prints identically, and it is the same expression up to the
-normal form. -/
-theorem roundTripsExpr_clean (br : Bool) (x : List Frag) (h : cleanExpr br x = true) :
+/-- **C14 for filter-free expressions.** A constructible expression without filter fragments and
+without a named deviation round-trips in the text form `br`: the printed text is accepted, the re-parsed
+expression prints identically, and it is the same expression up to the normal form. -/
+theorem roundTripsExpr_clean (br : Bool) (x : List Frag) (h : cleanExpr x = true) :
     roundTripsExpr br x = true := by
   simp only [roundTripsExpr, parseExpr_print br x h, exprPrint_imgL br x h, beq_self_eq_true, Bool.true_and,
     sameExpr, imgL_normL]
-
 
 /-! ## from the predicates of Spec.lean -/
 
@@ -456,95 +377,52 @@ def noFilter : List Frag → Bool
 theorem addIf_nil {c : Bool} {d : Dev} {l : List Dev} (h : addIf c d l = []) : c = false ∧ l = [] := by
   cases c <;> simp_all [addIf]
 
-theorem goodB_of (m : UMem) (hok : m.ok = true) (hb : m.badKey = false) : m.goodB = true := by
-  cases m with
-  | key s =>
-    simp only [UMem.badKey, List.any_eq_false, Bool.or_eq_true, decide_eq_true_eq, not_or] at hb
-    simp only [UMem.goodB, List.all_eq_true, Bool.and_eq_true, bne_iff_ne, ne_eq]
-    exact hb
-  | idx i => exact hok
-
-theorem clean_of_spec (br : Bool) (f : Frag) (hok : f.ok = true) (hdev : f.devs br = [])
-    (h1 : f.isRootAt = false) (h2 : f.isDescent = false) (h3 : noFilter [f] = true) : f.clean br = true := by
+theorem clean_of_spec (f : Frag) (hok : f.ok = true) (hdev : f.devs = [])
+    (h1 : f.isRootAt = false) (h3 : noFilter [f] = true) : f.clean = true := by
   cases f with
-  | child k =>
-    simp only [Frag.devs] at hdev
-    have := (addIf_nil hdev).1
-    cases hb : br <;> cases ht : tokenOk k <;> cases hu : utf8Ok k <;> simp_all [Frag.clean]
-  | nth i =>
-    simp only [Frag.devs] at hdev
-    have := (addIf_nil hdev).1
-    simp only [Frag.ok] at hok
-    simp only [Frag.clean, hok, Bool.true_and, decide_eq_true_eq]
-    simpa using this
+  | child k => rfl
+  | nth i => exact hok
   | wild hh => simpa [Frag.ok, Frag.clean] using hok
+  | descent => rfl
   | union ms =>
     simp only [Frag.devs] at hdev
-    obtain ⟨d1, d2⟩ := addIf_nil hdev
-    have d3 := (addIf_nil d2).1
+    have d1 := (addIf_nil hdev).1
     simp only [Frag.ok, List.all_eq_true] at hok
-    simp only [List.any_eq_false] at d3
     simp only [Frag.clean, Bool.and_eq_true, decide_eq_true_eq, List.all_eq_true]
-    refine ⟨by simpa using d1, fun m hm => goodB_of m (hok m hm) ?_⟩
-    have := d3 m hm
-    simpa using this
+    refine ⟨by simpa using d1, fun m hm => ?_⟩
+    have := hok m hm
+    cases m with
+    | key s => rfl
+    | idx i => exact this
   | slice ns => exact hok
   | root => simp [Frag.isRootAt] at h1
   | «at» => simp [Frag.isRootAt] at h1
-  | descent => simp [Frag.isDescent] at h2
   | filter t => simp [noFilter] at h3
-
-theorem devDescentL_cons (br : Bool) (f : Frag) (r : List Frag) (h : f.isDescent = false) :
-    devDescentL br (f :: r) = devDescentL br r := by
-  cases f <;> simp [Frag.isDescent] at h <;> rfl
 
 theorem noFilter_cons (f : Frag) (r : List Frag) (h : noFilter (f :: r) = true) :
     noFilter [f] = true ∧ noFilter r = true := by
   cases f <;> simp_all [noFilter]
 
-theorem dotStart_of (g : Frag) (h1 : g.bracketForm = false) (h2 : g.isDescent = false) (h3 : g.isRootAt = false) :
-    g.dotStart = true := by
-  cases g <;> simp_all [Frag.bracketForm, Frag.isDescent, Frag.isRootAt, Frag.dotStart]
-
-theorem cleanTail_of_spec (br : Bool) : ∀ r : List Frag, Frag.okL r = true → noFilter r = true →
-    r.any Frag.isRootAt = false → devDescentL br r = false → Frag.devsL br r = [] → cleanTail br r = true := by
+theorem cleanTail_of_spec : ∀ r : List Frag, Frag.okL r = true → noFilter r = true →
+    r.any Frag.isRootAt = false → Frag.devsL r = [] → cleanTail r = true := by
   intro r
   induction r with
   | nil => intros; rfl
   | cons f r ih =>
-    intro hok hnf hra hdd hdev
+    intro hok hnf hra hdev
     simp only [Frag.okL, Bool.and_eq_true] at hok
     simp only [List.any_cons, Bool.or_eq_false_iff] at hra
     simp only [Frag.devsL, List.append_eq_nil_iff] at hdev
     obtain ⟨hnf1, hnf2⟩ := noFilter_cons f r hnf
-    by_cases hd : f.isDescent = true
-    · cases f <;> simp [Frag.isDescent] at hd
-      simp only [devDescentL, Bool.or_eq_false_iff] at hdd
-      have hb : br = false := hdd.1.1
-      have ht := ih hok.2 hnf2 hra.2 hdd.2 hdev.2
-      simp only [cleanTail, hb, Bool.not_false, Bool.true_and, Bool.and_eq_true]
-      rw [hb] at ht
-      refine ⟨?_, ht⟩
-      cases r with
-      | nil => rfl
-      | cons g r' =>
-        have hg := hdd.1.2
-        simp only [Bool.or_eq_false_iff] at hg
-        simp only [List.any_cons, Bool.or_eq_false_iff] at hra
-        exact dotStart_of g hg.1 hg.2 hra.2.1
-    · have hd' : f.isDescent = false := by simpa using hd
-      rw [devDescentL_cons br f r hd'] at hdd
-      have hc := clean_of_spec br f hok.1 hdev.1 hra.1 hd' hnf1
-      have ht := ih hok.2 hnf2 hra.2 hdd hdev.2
-      cases f <;> simp_all [cleanTail, Frag.isDescent]
+    simp only [cleanTail, Bool.and_eq_true]
+    exact ⟨clean_of_spec f hok.1 hdev.1 hra.1 hnf1, ih hok.2 hnf2 hra.2 hdev.2⟩
 
-/-- the hypotheses of the partial theorem in the words of Spec.lean: constructible, no filter
-fragment, no named deviation -/
+/-- the hypotheses of the theorem in the words of Spec.lean: constructible, no filter fragment, no named
+deviation -/
 theorem cleanExpr_of_spec (br : Bool) (x : List Frag) (hok : Frag.okL x = true) (hnf : noFilter x = true)
-    (hdev : devsExpr br x = []) : cleanExpr br x = true := by
+    (hdev : devsExpr br x = []) : cleanExpr x = true := by
   simp only [devsExpr] at hdev
-  obtain ⟨hdd, h2⟩ := addIf_nil hdev
-  obtain ⟨hra, hdl⟩ := addIf_nil h2
+  obtain ⟨hra, hdl⟩ := addIf_nil hdev
   cases x with
   | nil => rfl
   | cons f r =>
@@ -552,13 +430,11 @@ theorem cleanExpr_of_spec (br : Bool) (x : List Frag) (hok : Frag.okL x = true) 
     simp only [cleanExpr]
     by_cases hf : f.isRootAt = true
     · simp only [hf, ↓reduceIte]
-      have hd : f.isDescent = false := by cases f <;> simp [Frag.isRootAt] at hf <;> rfl
-      rw [devDescentL_cons br f r hd] at hdd
       simp only [Frag.okL, Bool.and_eq_true] at hok
       simp only [Frag.devsL, List.append_eq_nil_iff] at hdl
-      exact cleanTail_of_spec br r hok.2 (noFilter_cons f r hnf).2 hra hdd hdl.2
+      exact cleanTail_of_spec r hok.2 (noFilter_cons f r hnf).2 hra hdl.2
     · simp only [hf, Bool.false_eq_true, ↓reduceIte]
       have hf' : f.isRootAt = false := by simpa using hf
-      exact cleanTail_of_spec br (f :: r) hok hnf (by simp [hf', hra]) hdd hdl
+      exact cleanTail_of_spec (f :: r) hok hnf (by simp [hf', hra]) hdl
 
 end OjgVerif.JPText
